@@ -66,6 +66,37 @@ theorem cart_in_bounds (L : Int) : (cart L).safe := by
     · simp only [List.mem_singleton] at h; subst h; unfold Write.ok; simp only; omega
   · exact cartFixed_ok w hw
 
+/-- SFC_GET_CART_INFO after any cart chunk the reader accepts, FULL strength for the current code: the copy out of the
+    cart block stays inside the block (and inside the caller's datasize), whatever the heap held before -/
+theorem cart_get_in_bounds (L datasize stale : Int) (hL : cartMin ≤ L ∧ L ≤ cartStruct - 4) (hd : 0 ≤ datasize) :
+    0 ≤ cartGetSize false L datasize stale ∧ cartGetSize false L datasize stale ≤ cartStruct ∧ cartGetSize false L datasize stale ≤ datasize := by
+  unfold cartGetSize
+  simp only [cartMin, cartStruct, cartTagOff] at hL ⊢
+  simp only [Bool.false_eq_true, if_false]
+  split <;> split <;> omega
+
+/-- the class of the old rule's failure: a cart chunk with no tag text -/
+def KF.cartNoTagText (L : Int) : Prop := L = cartMin
+
+instance (L : Int) : Decidable (KF.cartNoTagText L) := by unfold KF.cartNoTagText; infer_instance
+
+/-- OLD RULE (malloc, before fix 0005; findings/C03-cart-2048-uninit.txt): for a cart chunk of exactly 2048 bytes the copy
+    size came from uninitialised heap: with the 0xBE fill of the sanitizer's malloc and the 34820-byte block of the
+    harness, 34820 bytes were read out of the 18436-byte block -/
+theorem cart_get_overreads_old_rule :
+    ∃ L datasize stale : Int, KF.cartNoTagText L ∧ 0 ≤ stale ∧ stale < 4294967296 ∧ cartGetSize true L datasize stale = 34820 ∧ 34820 > cartStruct :=
+  ⟨2048, 34820, 0xBEBEBEBE, by decide, by decide, by decide, by decide, by decide⟩
+
+/-- OLD RULE: outside the class the size was determined by the file -/
+theorem cart_get_in_bounds_partial_old_rule (L datasize stale : Int) (hL : cartMin ≤ L ∧ L ≤ cartStruct - 4)
+    (h : ¬ KF.cartNoTagText L) : cartGetSize true L datasize stale = cartGetSize false L datasize stale := by
+  unfold KF.cartNoTagText at h
+  unfold cartGetSize
+  have : L > cartMin := by omega
+  simp only [this, if_true]
+
+example : cartGetSize false 2048 34820 0xBEBEBEBE = 2052 ∧ cartGetSize false 2304 34820 7 = 2308 ∧ ¬ KF.cartNoTagText 2304 := by decide
+
 /-- PEAK: every chunk length and channel count the fmt / COMM chunk can leave behind -/
 theorem peak_in_bounds (L ch : Int) (hch : 0 ≤ ch) : (peak L ch).safe := by
   unfold Outcome.safe peak
@@ -145,8 +176,9 @@ theorem smpl_in_bounds (L lc r : Int) : (smpl L lc r).safe := by
     · simp only [ha, if_true]; omega
     · simp only [ha, if_false]; omega
 
-/-- AIFF NAME / AUTH / (c) / ANNO: every chunk size (the odd size 8189 reads 8190 bytes) -/
-theorem aiff_text_in_bounds (size : Int) (h0 : 0 ≤ size) : (aiffText size).safe := by
+/-- AIFF NAME / AUTH / (c) / ANNO: every chunk size and every threshold the four cases use (slack 0, 1, 2): for (c)
+    the odd size 8191 reads 8192 bytes into the 8192-byte buffer and the terminator goes to index 8191 -/
+theorem aiff_text_in_bounds (slack size : Int) (hs : 0 ≤ slack) (h0 : 0 ≤ size) : (aiffText slack size).safe := by
   unfold Outcome.safe aiffText
   intro w hw
   simp only [writes_ite] at hw
@@ -211,7 +243,7 @@ example :
     (labl 3 16 5000).decision = "too-big" ∧ (labl 10 16 5000).vals = [6] ∧
     (cue 2500 100).vals = [2500, 4] ∧ (cue 2501 100).decision = "skip" ∧
     (smpl 60 1 24).vals = [1, 1] ∧ (smpl 8 40 1000).vals = [16, 42] ∧ (smpl 36 0 0).vals = [0, 0] ∧
-    (aiffText 8190).decision = "read" ∧ (aiffText 8191).decision = "too-big" ∧ (aiffComt 8191).decision = "read" ∧ (aiffComt 8192).decision = "error" ∧
+    (aiffText 1 8190).decision = "read" ∧ (aiffText 1 8191).decision = "too-big" ∧ (aiffText 0 8191).decision = "read" ∧ (aiffText 2 8190).decision = "too-big" ∧ (aiffComt 8191).decision = "read" ∧ (aiffComt 8192).decision = "error" ∧
     (cafInfo 102400).decision = "read" ∧ (cafInfo 102401).decision = "too-big" ∧ (cafChan 2 0x650002).vals = [2] := by decide
 
 end Sf.C03
